@@ -201,7 +201,7 @@ def _bmc_jobs(tier):
     return jobs
 
 
-def h_receiver_pli(ctx, npk, cap):
+def h_receiver_pli(ctx, npk, cap, empty_at=None):
     """The key-frame request reaches the wire: whenever JitterBuffer.add signals pli=True inside
     RTCRtpReceiver._handle_rtp_packet, that call sends a PLI (also when the same add() releases
     a frame)."""
@@ -234,10 +234,11 @@ def h_receiver_pli(ctx, npk, cap):
     for i in range(npk):
         off = ctx.int("off%d" % i, 0, cap + 2)
         p = RtpPacket(payload_type=96, sequence_number=(origin + off) & M16, timestamp=(1000 + 90 * off) & 0xFFFFFFFF, ssrc=SSRC, marker=1)
-        p.payload = Vp8Encoder._packetize(bytes([0xC0 + i] * 3), 100 + i)[0]
+        p.payload = b"" if i == empty_at else Vp8Encoder._packetize(bytes([0xC0 + i] * 3), 100 + i)[0]  # (padding-only packet)
         f0, n0 = len(flags), len(plis)
         sx.run(r._handle_rtp_packet(p, arrival_time_ms=10 * i))
         ctx.reach("receiver-handled")
+        ctx.check(len(flags) == f0 + 1, "every-media-packet-reaches-the-jitter-buffer", "packet %d%s" % (i, " (empty payload)" if i == empty_at else ""))
         if len(flags) > f0:
             pli, frame = flags[-1]
             if pli:
@@ -262,7 +263,7 @@ HARNESSES = {
     "receiver-pli": Harness(
         "receiver-pli",
         h_receiver_pli,
-        lambda tier: [{"npk": n, "cap": 4} for n in ((4,) if tier == "quick" else (4, 5))],
+        lambda tier: [{"npk": n, "cap": 4} for n in ((4,) if tier == "quick" else (4, 5))] + [{"npk": 3, "cap": 4, "empty_at": 1}],
         style="BMC",
         bounds="real RTCRtpReceiver._handle_rtp_packet with a capacity-4 video jitter buffer; 4 (quick) / 4..5 single-packet VP8 frames at offsets 0..6 from a symbolic 16-bit origin, any order",
         encoded=ENC + ["aiortc.rtcrtpreceiver:RTCRtpReceiver._handle_rtp_packet"],
